@@ -61,11 +61,69 @@ func runC08(c *Ctx) {
 	for _, top := range P.Methods("cache", "Cache") {
 		methods = append(methods, withClosures(top)...)
 	}
+	// departure wrappers: an unexported method that takes exactly one entry out of the store, notifies the
+	// callback with that very (key, value), returns the departed value and leaves the size/count accounting
+	// to its callers.  A call of such a helper is a departure in the caller's block (value = the call's result).
+	wrapperRes := map[*ssa.Function]int{}
+	for _, fn := range methods {
+		if fn.Parent() != nil || P.isCanaryFn(fn) || fn.Object() == nil || fn.Object().Exported() {
+			continue
+		}
+		var dep *ssa.Call
+		ndep, accounting := 0, false
+		allInstrs(fn, func(in ssa.Instruction) {
+			if n, call := invokeName(in); n == "Evict" {
+				dep = call
+				ndep++
+			} else if n == "Remove" {
+				ndep += 2 // only the Evict form is summarised
+			}
+			if st, ok := in.(*ssa.Store); ok {
+				if fa, ok := st.Addr.(*ssa.FieldAddr); ok {
+					if _, f := fieldVarOf(fa); sameField(f, countF) || sameField(f, sizeF) {
+						accounting = true
+					}
+				}
+			}
+		})
+		if ndep != 1 || accounting {
+			continue
+		}
+		v := extractOf(dep, 1)
+		if v == nil {
+			continue
+		}
+		ri := -1
+		okRet := true
+		allInstrs(fn, func(in ssa.Instruction) {
+			ret, ok := in.(*ssa.Return)
+			if !ok {
+				return
+			}
+			found := false
+			for i, r := range ret.Results {
+				if r == v {
+					if ri == -1 || ri == i {
+						ri = i
+						found = true
+					}
+				}
+			}
+			if !found {
+				okRet = false
+			}
+		})
+		if ri >= 0 && okRet {
+			wrapperRes[fn] = ri
+		}
+	}
+	wrapperUsed := map[*ssa.Function]int{}
 	for _, fn := range methods {
 		if P.isCanaryFn(fn) {
 			continue
 		}
 		name := fnName(fn)
+		_, isWrapper := wrapperRes[fn]
 		// departures per block
 		depBlocks := map[*ssa.BasicBlock]bool{}
 		for _, b := range fn.Blocks {
@@ -74,7 +132,25 @@ func runC08(c *Ctx) {
 				k, v ssa.Value
 				call *ssa.Call
 			}
+			viaHelper := map[*ssa.Call]bool{}
 			for _, in := range b.Instrs {
+				if hc, ok := in.(*ssa.Call); ok {
+					if cal := staticCallee(&hc.Call); cal != nil {
+						if ri, isW := wrapperRes[origin(cal)]; isW {
+							var v ssa.Value = hc
+							if origin(cal).Signature.Results().Len() > 1 {
+								v = extractOf(hc, ri)
+							}
+							wrapperUsed[origin(cal)]++
+							viaHelper[hc] = true
+							deps = append(deps, struct {
+								what string
+								k, v ssa.Value
+								call *ssa.Call
+							}{"Evict (through " + origin(cal).Name() + ")", nil, v, hc})
+						}
+					}
+				}
 				mname, call := invokeName(in)
 				switch mname {
 				case "Remove":
@@ -118,7 +194,9 @@ func runC08(c *Ctx) {
 					switch x := in.(type) {
 					case *ssa.Call:
 						if isLoad(x.Call.Value, onEvictF) {
-							if len(x.Call.Args) == 2 && sameV(x.Call.Args[0], d.k) && sameV(x.Call.Args[1], d.v) {
+							if viaHelper[d.call] {
+								probs = append(probs, "a second eviction callback beside the one the helper makes")
+							} else if len(x.Call.Args) == 2 && sameV(x.Call.Args[0], d.k) && sameV(x.Call.Args[1], d.v) {
 								nCb++
 							} else {
 								probs = append(probs, "an eviction callback with other arguments than the departing (key, value)")
@@ -162,6 +240,17 @@ func runC08(c *Ctx) {
 					}
 				}
 				nd := len(deps)
+				if viaHelper[d.call] {
+					nCb = 1 // the helper notifies (judged in the helper)
+				}
+				if isWrapper && !viaHelper[d.call] {
+					// the accounting of this departure is the callers' (each call site is judged as a departure)
+					if nCb != 1 {
+						probs = append(probs, fmt.Sprintf("%d callbacks for this departure (want exactly 1)", nCb))
+					}
+					c.judge(len(probs) == 0, "R-EVICT-PAIR", key, d.call.Pos(), "one callback(k,v); the departed value is returned and accounted for at every call site", fmt.Sprint(probs))
+					continue
+				}
 				if nCb != nd && nCb != 1 {
 					probs = append(probs, fmt.Sprintf("%d callbacks for this departure (want exactly 1)", nCb))
 				} else if nCb == 0 {
@@ -312,6 +401,11 @@ func runC08(c *Ctx) {
 			}
 		})
 	}
+	for w := range wrapperRes {
+		if wrapperUsed[w] == 0 {
+			c.bad("R-EVICT-PAIR", fnName(w)+":accounting", w.Pos(), "this helper takes an entry out of the store without adjusting size and count, and no caller in the Cache's methods does it for it")
+		}
+	}
 	// refusal precedes every effect of Put
 	putTop := P.Func("cache", "Cache", "Put")
 	var put *ssa.Function
@@ -319,7 +413,7 @@ func runC08(c *Ctx) {
 	if putTop != nil {
 		// the body that stores the new entry (Put itself, or the closure it hands to a lock wrapper); the
 		// value is what that body passes to Store.Store
-		for _, f := range withClosures(putTop) {
+		for _, f := range buildCallScope(putTop).fns {
 			allInstrs(f, func(in ssa.Instruction) {
 				if n, call := invokeName(in); n == "Store" && len(call.Call.Args) == 2 && put == nil {
 					put, val = f, call.Call.Args[1]
@@ -442,13 +536,49 @@ func runC08(c *Ctx) {
 	if clear := P.Func("cache", "Cache", "Clear"); clear == nil {
 		c.undecided("ANCHOR", "cache.(*Cache).Clear", 0, "not found")
 	} else {
+		// the function holding Clear's loop: the one (Clear, a closure it runs, a helper it calls) that takes
+		// entries out of the store directly or through a helper
 		var body *ssa.Function
-		for _, fn := range withClosures(clear) {
+		departs := func(fn *ssa.Function) bool {
+			hit := false
+			for _, g := range buildCallScope(fn).fns {
+				allInstrs(g, func(in ssa.Instruction) {
+					if n, _ := invokeName(in); n == "Evict" || n == "Remove" {
+						hit = true
+					}
+				})
+			}
+			return hit
+		}
+		for _, fn := range buildCallScope(clear).fns {
+			direct := false
 			allInstrs(fn, func(in ssa.Instruction) {
 				if n, _ := invokeName(in); n == "Evict" || n == "Remove" {
-					body = fn
+					direct = true
+				}
+				if call, ok := in.(*ssa.Call); ok && !direct {
+					if cal := staticCallee(&call.Call); cal != nil && cal.Blocks != nil && origin(cal).Pkg == origin(clear).Pkg && departs(origin(cal)) {
+						// a loop around a departing helper
+						for _, b := range fn.Blocks {
+							if b == call.Block() {
+								direct = true
+							}
+						}
+					}
 				}
 			})
+			// prefer the function that also tests the count
+			if direct {
+				tests := false
+				allInstrs(fn, func(in ssa.Instruction) {
+					if bo, ok := in.(*ssa.BinOp); ok && (isLoad(bo.X, countF) || isLoad(bo.Y, countF)) {
+						tests = true
+					}
+				})
+				if body == nil || tests {
+					body = fn
+				}
+			}
 		}
 		if body == nil {
 			c.undecided("R-CLEAR-ALL", "cache.(*Cache).Clear:empties", clear.Pos(), "Clear takes nothing out of the store")
@@ -595,7 +725,27 @@ func runC08(c *Ctx) {
 				return true
 			}
 			var probs []string
-			for what, ev := range events {
+			for what, ev0 := range events {
+				// the event itself, or a call of a package helper (touch) that performs it on all of its paths
+				var lift func(ev func(ssa.Instruction) bool, depth int) func(ssa.Instruction) bool
+				lift = func(ev func(ssa.Instruction) bool, depth int) func(ssa.Instruction) bool {
+					return func(in ssa.Instruction) bool {
+						if ev(in) {
+							return true
+						}
+						call, ok := in.(*ssa.Call)
+						if !ok || depth <= 0 {
+							return false
+						}
+						cal := origin(staticCallee(&call.Call))
+						if cal == nil || cal.Blocks == nil || cal.Pkg == nil || cal.Pkg != origin(fn).Pkg || cal == origin(fn) {
+							return false
+						}
+						missing, _ := reachesWithout(P, firstInstr(cal), true, isReturn, lift(ev, depth-1))
+						return !missing
+					}
+				}
+				ev := lift(ev0, 2)
 				found, wit := reachesWithout(P, firstInstr(fn), true, isSuccess, ev)
 				if found {
 					probs = append(probs, "a successful return is reachable without the "+what+" ("+wit+")")
